@@ -470,6 +470,13 @@ fn level_bytes_of(t: &BlpImage, i: usize) -> Vec<u8> {
     }
 }
 
+/// The JPEG decoder behind the (trusted) `image` crate, zune-jpeg 0.4.20, computes `(width + 7) / 8` and
+/// `(height + 7) / 8` in u16 (mcu.rs decode_mcu_ycbcr_baseline): a side above 65528 overflows there (a panic under
+/// overflow checks). Third-party arithmetic, not the subject: such levels are judged on structure only.
+fn jpeg_decoder_limit(w: u32, h: u32) -> bool {
+    w > 65528 || h > 65528
+}
+
 fn rgba_of(img: &DynamicImage) -> Vec<[u8; 4]> {
     img.to_rgba8().pixels().map(|p| p.0).collect()
 }
@@ -861,6 +868,11 @@ fn judge_img(tier: Tier, scratch: &Scratch, idx: u64, c: &Case, label: &str, img
                     lib.push(None);
                     continue;
                 }
+                if kind == Kind::Jpeg && jpeg_decoder_limit(lw, lh) {
+                    r.count("jpeg_levels_not_decoded_third_party_u16_limit", 1);
+                    lib.push(None);
+                    continue;
+                }
                 match blp_to_image(p, i) {
                     Ok(im) => {
                         r.count("levels_decoded_by_library", 1);
@@ -994,6 +1006,9 @@ fn judge_img(tier: Tier, scratch: &Scratch, idx: u64, c: &Case, label: &str, img
                 let Ok((jh, _)) = refblp::jpeg_header(bytes, &rh) else { return };
                 for (i, data) in lvl.iter().enumerate() {
                     let (lw, lh) = refblp::level_dims(c.w, c.h, i);
+                    if jpeg_decoder_limit(lw, lh) {
+                        continue;
+                    }
                     let mut full = jh.clone();
                     full.extend(data);
                     match image::load_from_memory_with_format(&full, image::ImageFormat::Jpeg) {
@@ -1022,7 +1037,6 @@ impl Space for Main {
     fn run(&self, i: u64) -> CaseResult {
         let mut r = CaseResult::new();
         r.key = self.describe(i).to_string();
-        let _ = self.tier;
         let mut outcomes: Vec<String> = vec![];
         let mut refused = 0;
         for sub in 0..self.subs(i) {
@@ -1058,7 +1072,8 @@ impl Space for Main {
         r
     }
     fn case_timeout(&self) -> u64 {
-        300
+        // thorough: the slowest case (512x512 DXT5 IterativeClusterFit, ~30 s on an idle core) must survive a heavily shared machine
+        self.tier.pick(300, 1500)
     }
 }
 
@@ -1077,12 +1092,12 @@ struct Chain {
 
 const CHAIN_CLASSES: [usize; 2] = [2, 3];
 const CHAIN_LEVELS: [usize; 3] = [0, 1, 2];
-const CHAIN_DIMS: &str = "{1..16}^2 + {31,32,33,64,65}^2 + 100x60, 256x64, 64x256, 128x128, 255x257";
+const CHAIN_DIMS: &str = "{1..20}^2 + {31,32,33,64,65}^2 + 100x60, 256x64, 64x256, 128x128, 255x257";
 
 fn chain_dims() -> Vec<(u32, u32)> {
     let mut v = vec![];
-    for w in 1..=16u32 {
-        for h in 1..=16u32 {
+    for w in 1..=20u32 {
+        for h in 1..=20u32 {
             v.push((w, h));
         }
     }
@@ -1232,7 +1247,8 @@ impl Space for Chain {
         r
     }
     fn case_timeout(&self) -> u64 {
-        300
+        // thorough: the slowest case (512x512 DXT5 IterativeClusterFit, ~30 s on an idle core) must survive a heavily shared machine
+        self.tier.pick(300, 1500)
     }
 }
 
@@ -1246,6 +1262,7 @@ fn build(name: &str, _arg: &str, tier: Tier) -> Box<dyn Space> {
 
 /// `c16 --repro`: stand-alone demonstrations of the defects on minimal inputs, real API only.
 fn repro() {
+    install_panic_hook();
     let img = |w: u32, h: u32| DynamicImage::ImageRgba8(RgbaImage::from_fn(w, h, |x, y| image::Rgba([(x * 40) as u8, (y * 90) as u8, 7, 255])));
     println!("== R1 convert/mipmap.rs generate_mipmaps: chain of a non-square image never reaches 1x1");
     for (w, h) in [(4, 2), (8, 2), (256, 64), (1, 512)] {
@@ -1273,6 +1290,13 @@ fn repro() {
     let ext = &e.blp_mipmaps;
     let res = parse_blp_with_externals(&e.blp_bytes, move |i| Ok(ext.get(i).map(|v| v.as_slice())));
     println!("   4x2 BLP0 raw1 mipmaps=on: {} external buffers; parse: {}", e.blp_mipmaps.len(), match res { Ok(_) => "Ok".to_string(), Err(e) => format!("Err({e})") });
+    println!("== N1 (third party, not a wow-blp defect): zune-jpeg 0.4.20 mcu.rs computes (width+7)/8 in u16; a JPEG level with a side > 65528 cannot be decoded");
+    {
+        let t = image_to_blp(img(65535, 1), false, BlpTarget::Blp2(Blp2Format::Jpeg { has_alpha: false }), FilterType::Nearest).unwrap();
+        let p = parse_blp(&encode_blp(&t).unwrap()).unwrap();
+        let res = guarded(|| blp_to_image(&p, 0).map(|i| (i.width(), i.height())).map_err(|e| e.to_string()));
+        println!("   65535x1 BLP2 jpeg: parse(encode(t))==t: {}; blp_to_image(level 0): {:?}", p == t, res);
+    }
     println!("== control: square 4x4 with mipmaps round-trips in every target");
     let t = image_to_blp(img(4, 4), true, BlpTarget::Blp2(Blp2Format::Dxt5 { has_alpha: true, compress_algorithm: DxtAlgorithm::RangeFit }), FilterType::Nearest).unwrap();
     println!("   4x4 dxt5 mipmaps=on: levels {} equal {}", t.image_count(), parse_blp(&encode_blp(&t).unwrap()).unwrap() == t);
@@ -1338,6 +1362,7 @@ fn main() {
     if tier == Tier::Thorough {
         c.assume("for inputs that are not 8-bit RGB(A) (LumaA8, Rgba16, Rgb32F) the source pixels of the property are the 8-bit RGBA view computed by the `image` crate (DynamicImage::to_rgba8)");
         c.assume("FilterType::Nearest of the `image` crate copies one source pixel per output pixel (no blending); used only for the lower-level subset oracle");
+        c.assume("zune-jpeg 0.4.20 (JPEG decoder of the trusted `image` crate) overflows u16 in (side+7)/8 for sides above 65528: JPEG levels that large (only the 65535-wide/high strips) are judged on structure, offsets and sizes but are not decoded");
         c.assume("chained conversions: the decoded image returned by blp_to_image is the source of the second conversion; failures of the first stage itself are judged in space main, not in space chain");
     }
     c.run_space("main", "");
